@@ -47,7 +47,8 @@ RULE = ('one-channel scripts of chunks/calls/completions: byte streams built fro
         'reuse; jammed send direction; requests queued and then served when the reply cannot be written (peer gone / send '
         'buffer full); calls that reuse one reply object with optional and repeated fields; asynchronous service completing requests later, out of order, with duplicate '
         'request ids.  two-channel scripts: two real RpcChannels back to back over a pipe pair, the server lacking '
-        'methods and answering when told.  non-trivial = at least one message dispatched by the model; distinct = '
+        'methods and answering when told.  multi-channel scripts: 2-4 independent real channels alive in one process, '
+        'their scripts interleaved op by op (partial frames of one connection with reads of the others in between).  non-trivial = at least one message dispatched by the model; distinct = '
         'distinct model output line')
 ASSUMPTIONS = ['realloc does not fail', 'little-endian host (header word is read with the host byte order; LE_PROBE obligation)',
                'ConnectedDescriptor::Receive(buf, n) returns the first min(n, available) bytes (level-triggered poller); '
@@ -494,6 +495,46 @@ def gen_random_bodies(rng, n):
             s.stream += header(1, len(b)) + b
         yield s.tokens(rng.choice(MODES))
 
+def gen_multi(rng):
+    """several independent channels alive in one process, their scripts interleaved op by op (so a frame of
+    one connection is split over reads with whole or partial frames of the others in between)"""
+    n = rng.choice([2, 2, 3, 4])
+    kinds = ['valid', 'valid', 'calls', 'bufsize', 'bufsize', 'zero', 'badver', 'undecodable', 'wrap', 'dupid',
+             'jam', 'srvfail', 'reuse', 'noise']
+    head, ops = [], []
+    seen = set()
+    for k in range(n):
+        while True:
+            s = gen_script(rng, rng.choice(kinds))
+            if not s.flags and len(s.stream) <= 9000:
+                break
+        toks = s.tokens(rng.choice(['random', 'random', 'hdr', 'bytes'] if len(s.stream) < 400 else ['random', 'hdr'])).split(' ')
+        mine = []
+        for t in toks:
+            if t[0] in '@':
+                continue
+            if t[0] in 'TQ':
+                if t not in seen:
+                    seen.add(t); head.append(t)
+            else:
+                mine.append(t)
+        ops.append(mine)
+    out = ['@multi', 'M%d' % n] + head
+    cur = None
+    pos = [0] * n
+    live = [k for k in range(n) if ops[k]]
+    while live:
+        k = rng.choice(live)
+        # a short burst from this channel
+        for _ in range(rng.choice([1, 1, 1, 2, 3])):
+            if pos[k] >= len(ops[k]):
+                break
+            if cur != k:
+                out.append('i%d' % k); cur = k
+            out.append(ops[k][pos[k]]); pos[k] += 1
+        live = [j for j in range(n) if pos[j] < len(ops[j])]
+    return ' '.join(out)
+
 def gen_cases(rng, tier):
     n = 130 if tier == 'quick' else 8000
     kinds = ['valid', 'zero', 'badver', 'oversize', 'maxexact', 'undecodable', 'noise', 'bufsize',
@@ -503,6 +544,8 @@ def gen_cases(rng, tier):
     for i in range(n):
         for _ in range(3):
             yield gen_two(rng)
+        for _ in range(3):
+            yield gen_multi(rng)
         for kind in kinds:
             s = gen_script(rng, kind)
             modes = MODES if (i % 4 == 0) else [rng.choice(MODES)]
@@ -531,7 +574,7 @@ LEVEL_TEXT = ('Coq theorems, for all byte streams, all segmentations into reads 
               'reuse; the serving side only writes replies carrying the id of a request it received, also with duplicate '
               'request ids and asynchronous out-of-order completion; every server-side request object is outstanding, superseded '
               'or deleted exactly once (only inside its own completion); reads of the buffer and writes of the header array '
-              'are in bounds.  realloc failure is not modelled; calls outstanding when the channel closes are never completed '
+              'are in bounds; any number of channels in one process, under any interleaving, each behave as if alone.  realloc failure is not modelled; calls outstanding when the channel closes are never completed '
               'by the code (outside the property: healthy connections).')
 LEVEL_NOTE = ('Trusted: Coq kernel, extraction (ExtrOcamlBasic), OCaml/C++ glue, generator coverage; model = code is validated '
               'by differential testing (real RpcChannel on a socketpair under ASan/UBSan, raw bytes in generated chunkings, '
